@@ -186,6 +186,33 @@ class Evaluator:
             if isinstance(v, (str, bytes)):
                 r = getattr(v, e.func.attr)(*[self.ev(a) for a in e.args])
                 return tuple(r) if isinstance(r, list) else r
+        if isinstance(e, ast.JoinedStr):
+            # f-string over modelled ints / strings / bytes (format specs may nest fields)
+            out_s = ""
+            for part in e.values:
+                if isinstance(part, ast.Constant):
+                    out_s += str(part.value)
+                    continue
+                v = self.ev(part.value)
+                if isinstance(v, bool) or not isinstance(v, (int, str)):
+                    raise Unsupported(e)
+                if part.conversion not in (-1, 115):
+                    raise Unsupported(e)
+                spec = self.ev(part.format_spec) if part.format_spec is not None else ""
+                try:
+                    out_s += format(str(v) if part.conversion == 115 else v, spec)
+                except (ValueError, TypeError):
+                    raise ModelRaise(Outcome("raise", "ValueError", e))
+            return out_s
+        if isinstance(e, ast.Call) and isinstance(e.func, ast.Attribute) and e.func.attr == "format" and isinstance(e.func.value, ast.Constant) and isinstance(e.func.value.value, str):
+            args = [self.ev(a) for a in e.args]
+            kw = {k.arg: self.ev(k.value) for k in e.keywords if k.arg}
+            if len(kw) != len(e.keywords) or any(isinstance(v, bool) or not isinstance(v, (int, str)) for v in args + list(kw.values())):
+                raise Unsupported(e)
+            try:
+                return e.func.value.value.format(*args, **kw)
+            except (ValueError, TypeError, IndexError, KeyError):
+                raise ModelRaise(Outcome("raise", "ValueError", e))
         if isinstance(e, ast.Call) and isinstance(e.func, ast.Attribute) and e.func.attr in ("upper", "lower", "strip", "lstrip", "rstrip", "hex", "encode", "decode") and not e.args and not e.keywords:
             try:
                 v = self.ev(e.func.value)
